@@ -104,7 +104,11 @@ class Obs:
             return False
         if case.buffer == 0:
             return True
-        return any(self.sr[s] < q < t for q in self.quiets)
+        # buffered subCh: Subscribe returns when the request is queued. Only a quiet point at which the event
+        # loop is idle in its select (context live, every subscriber receiving, nothing held) shows that the
+        # queue was drained; at a quiet point with a gated subscriber the loop may be blocked in dist.Send with
+        # the request still queued, and its next select chooses at random between that request and a Publish.
+        return any(self.sr[s] < q < t and self.good_quiet(q) for q in self.quiets)
 
 
 def parse(line, obs):
@@ -276,8 +280,9 @@ def settle(subs, pubs=()):
     return [["join", p] for p in pubs] + [["open", s] for s in subs] + [["quiesce"]]
 
 
-def scenario(rng, kind, backend, risky):
-    """one scripted scenario; `risky` allows Unsubscribe while messages may be in flight (D24's shape)"""
+def scenario(rng, kind, backend, risky, buf=0):
+    """one scripted scenario; `risky` allows Unsubscribe while messages may be in flight (D24's shape);
+    `buf` is the BufferSize the scenario will run with"""
     unbounded = backend[0] in ("queue", "deque") and backend[1] == "unl"
     ns = rng.choice([1, 2, 2, 3])
     npub = rng.choice([1, 1, 2, 3])
@@ -326,6 +331,37 @@ def scenario(rng, kind, backend, risky):
             else:
                 sc.append(["pub", rng.randrange(npub), rng.choice([1, 2, 3])])
         sc.append(["quiesce"])
+    elif kind == "unsub-twice":
+        # the same channel is unsubscribed twice while another subscriber keeps receiving
+        ns = max(ns, 2)
+        subs = list(range(ns))
+        sc += [["sub", s, "open"] for s in subs]
+        sc.append(["pub", 0, rng.choice([1, 2])])
+        sc += settle(subs)
+        gone = rng.randrange(ns)
+        sc.append(["unsub", gone])
+        if rng.random() < 0.5:
+            sc += [["pub", 0, 1], ["quiesce"]]
+        sc.append(["unsub", gone])
+        sc += [["pub", 0, rng.choice([1, 3])], ["quiesce"], ["stats"]]
+        if rng.random() < 0.4:
+            sc += [["sub", ns, "open"], ["pub", 1, 2], ["quiesce"]]
+    elif kind == "unsub-parked":
+        # >= 3 subscribers; a dispatch is parked on a gated later subscriber when the Unsubscribe of an earlier
+        # one is processed: afterwards nobody who stayed is skipped and nobody gets a message twice. (What the
+        # leaving subscriber itself still gets of the parked message is D24's question and classified as such.)
+        ns = rng.choice([3, 3, 4])
+        subs = list(range(ns))
+        slow = rng.randrange(1, ns)
+        sc += [["sub", s, "gated" if s == slow else "open"] for s in subs]
+        sc += [["pubasync", 0, buf + rng.choice([1, 2])], ["quiesce"]]
+        gone = rng.randrange(slow)
+        sc.append(["unsub", gone])
+        if rng.random() < 0.3:
+            sc.append(["unsub", gone])
+        if rng.random() < 0.5:
+            sc.append(["quiesce"])
+        sc += [["open", slow], ["join", 0], ["quiesce"], ["pub", 1, rng.choice([1, 3])], ["quiesce"], ["stats"]]
     elif kind == "hold":
         # the dispatch workers are parked after Receive; released together
         sc += [["sub", s, "open"] for s in subs]
@@ -396,9 +432,10 @@ def scenario(rng, kind, backend, risky):
     return sc
 
 
-C08_KINDS = ["steady", "burst", "concurrent", "churn", "churn", "hold", "random", "random"]
+C08_KINDS = ["steady", "burst", "concurrent", "churn", "churn", "hold", "random", "random", "unsub-twice",
+             "unsub-parked"]
 C09_KINDS = ["steady", "burst", "burst", "concurrent", "stop-idle", "stop-dispatch", "stop-publish", "stop-backlog", "api",
-             "wait-stop", "random"]
+             "wait-stop", "random", "unsub-twice"]
 
 
 def gen(rng, tier, kinds, risky):
@@ -410,7 +447,7 @@ def gen(rng, tier, kinds, risky):
                 par = rng.random() < 0.4
                 workers = rng.choice([1, 1, 2, 3])
                 buf = rng.choice([0, 0, 0, 1, 2])
-                out.append(mk(backend, par, workers, buf, scenario(rng, kind, backend, risky)))
+                out.append(mk(backend, par, workers, buf, scenario(rng, kind, backend, risky, buf)))
     return out
 
 
